@@ -22,6 +22,8 @@
  *   crcvs <single> <bodyLen> <seed> <size2|-> <init> <u.num.m.szx.etag.fmt[.len[.s2]],…>   the same; u = 1: the response arrives with
  *                                              sent == NULL (NON / separate response, or no request outstanding); init = 1: the session
  *                                              starts with the lg_crcv coap_send() sets up for the request
+ *   crcvo <single> <bodyLen> <seed> <size2|-> <init> <off> <u.num.m.szx.etag.fmt[.len[.s2]],…>   crcvs with a NUM offset: the Block2
+ *                                              option on the wire carries num + off (<= 0xFFFFF), the payload is the slice at num
  *   crcvt <single> <bodyLen> <seed> <size2|-> <init> <tx0> <t.u.num.m.szx.etag.fmt|x<i>|n,…>   the same with TOKENS (described at do_crcvt)
  *   ctok <isReq> <tokhex|-> <apphex|-/state,…|-> <apphex|-/state,…|->   coap_check_update_token (token restoration in front of the NACK
  *                                              handler) on a session with these lg_crcv / lg_xmit entries (application token / state token)
@@ -642,7 +644,7 @@ static void crcv_on_tx(const sim_dgram_t *d) {
   if (p) coap_delete_pdu(p);
 }
 
-static void do_crcv_x(int single, size_t bodyLen, unsigned seed, long size2, char *seq, int ext, int init) {
+static void do_crcv_x(int single, size_t bodyLen, unsigned seed, long size2, char *seq, int ext, int init, unsigned numoff) {
   static const uint8_t tok[4] = {0xa1, 0xa1, 0xa1, 0xa1};
   sim_reset();
   sim_log_enabled = 0;
@@ -679,6 +681,7 @@ static void do_crcv_x(int single, size_t bodyLen, unsigned seed, long size2, cha
     } else
       nf = sscanf(tk, "%u.%u.%u.%u.%u.%ld.%ld", &num, &m, &szx, &etag, &fmt, &len, &s2);
     if (nf < 5 || szx > 6 || m > 1 || etag > 255 || fmt > 255 || (nf >= 6 && len < 0) || (nf == 7 && s2 < 0)) { printf("bad-op"); break; }
+    if (numoff && (num > 0xFFFFF || num + numoff > 0xFFFFF)) { printf("bad-op"); break; }
     if (nf == 7) sz2 = s2 - 1;
     chunk = (size_t)1 << (szx + 4);
     off = (size_t)num * chunk;
@@ -689,7 +692,7 @@ static void do_crcv_x(int single, size_t bodyLen, unsigned seed, long size2, cha
     coap_add_token(rcvd, 4, tok);
     if (etag) { buf[0] = (uint8_t)etag; coap_add_option(rcvd, COAP_OPTION_ETAG, 1, buf); }
     if (fmt) coap_add_option(rcvd, COAP_OPTION_CONTENT_FORMAT, coap_encode_var_safe(buf, sizeof(buf), fmt), buf);
-    coap_add_option(rcvd, COAP_OPTION_BLOCK2, coap_encode_var_safe(buf, sizeof(buf), (num << 4) | (m << 3) | szx), buf);
+    coap_add_option(rcvd, COAP_OPTION_BLOCK2, coap_encode_var_safe(buf, sizeof(buf), ((num + numoff) << 4) | (m << 3) | szx), buf);
     if (sz2 >= 0) coap_add_option(rcvd, COAP_OPTION_SIZE2, coap_encode_var_safe(buf, sizeof(buf), (unsigned)sz2), buf);
     if (plen) coap_add_data(rcvd, plen, body + off);
     crcv_hbuf[0] = crcv_qbuf[0] = 0;
@@ -727,7 +730,7 @@ static void do_crcv_x(int single, size_t bodyLen, unsigned seed, long size2, cha
 }
 
 static void do_crcv(int single, size_t bodyLen, unsigned seed, long size2, char *seq) {
-  do_crcv_x(single, bodyLen, seed, size2, seq, 0, 0);
+  do_crcv_x(single, bodyLen, seed, size2, seq, 0, 0, 0);
 }
 
 /* crcvt <single> <bodyLen> <seed> <size2|-> <init> <tx0> <items> : the client's Block2 receive path with the TOKENS (round R09c; model
@@ -1584,7 +1587,12 @@ static void step1(char *line) {
     do_crcv(atoi(w[1]), strtoull(w[2], 0, 10), (unsigned)strtoul(w[3], 0, 10), strcmp(w[4], "-") ? atol(w[4]) : -1, w[5]);
   } else if (!strcmp(w[0], "crcvs") && n == 7) {
     do_crcv_x(atoi(w[1]), strtoull(w[2], 0, 10), (unsigned)strtoul(w[3], 0, 10), strcmp(w[4], "-") ? atol(w[4]) : -1, w[6], 1,
-              atoi(w[5]) != 0);
+              atoi(w[5]) != 0, 0);
+  } else if (!strcmp(w[0], "crcvo") && n == 8) {
+    /* crcvs with a NUM OFFSET: the Block2 option on the wire carries num + <off>, the payload is the slice at num */
+    if (strtoull(w[6], 0, 10) > 0xFFFFF || strtoull(w[2], 0, 10) > 65536) { printf("bad-op"); return; }
+    do_crcv_x(atoi(w[1]), strtoull(w[2], 0, 10), (unsigned)strtoul(w[3], 0, 10), strcmp(w[4], "-") ? atol(w[4]) : -1, w[7], 1,
+              atoi(w[5]) != 0, (unsigned)strtoul(w[6], 0, 10));
   } else if (!strcmp(w[0], "crcvt") && n == 8) {
     do_crcvt(atoi(w[1]), strtoull(w[2], 0, 10), (unsigned)strtoul(w[3], 0, 10), strcmp(w[4], "-") ? atol(w[4]) : -1, atoi(w[5]) != 0,
              strtoull(w[6], 0, 10), w[7]);
@@ -1624,7 +1632,7 @@ static char *cap_end(void) { fclose(stdout); stdout = h_saved; return h_cap; }
 
 static void step(char *line) {
   long live0 = h_live;
-  if (!strncmp(line, "crcv ", 5) || !strncmp(line, "crcvs ", 6) || !strncmp(line, "crcvt ", 6) || !strncmp(line, "srcv", 4) || !strncmp(line, "q408 ", 5)) {
+  if (!strncmp(line, "crcv ", 5) || !strncmp(line, "crcvs ", 6) || !strncmp(line, "crcvo ", 6) || !strncmp(line, "crcvt ", 6) || !strncmp(line, "srcv", 4) || !strncmp(line, "q408 ", 5)) {
     /* whatever the receiving application is handed must not depend on bytes nobody wrote */
     char *copy = strdup(line), *a, *b;
     h_poison = 0xA5; cap_begin(); step1(line); a = cap_end();
